@@ -77,3 +77,28 @@ Print Assumptions C20_import_mapping_flag_roundtrip.
 Theorem C20_import_mapping_flag_rejects_two_colons : parse_map "a:b:c"%string = None.
 Proof. exact two_colons_rejected. Qed.
 Print Assumptions C20_import_mapping_flag_rejects_two_colons.
+
+(** "Configurations that ... contain unknown keys are rejected", and a file is processed as a file of the style it is
+    written in (cases_C20_style ties [detect strict_old] to the tool): a key neither style has is refused under every
+    combination of flags; an accepted file has only keys of the style it was taken for; a file with a new-style-only
+    section is a new-style file whatever legacy flags come with it; a non-strict old-style probe is refuted. *)
+Theorem C20_unknown_key_refused : forall e l f, In KUnknown f -> detect strict_old e l f = None.
+Proof. exact unknown_key_refused. Qed.
+Print Assumptions C20_unknown_key_refused.
+
+Theorem C20_accepted_means_every_key_known : forall e l f s,
+  detect strict_old e l f = Some s ->
+  match s with SOld => strict_old f = true | SNew => strict_new f = true end.
+Proof. exact accepted_means_every_key_known. Qed.
+Print Assumptions C20_accepted_means_every_key_known.
+
+Theorem C20_new_only_key_means_new_style : forall l f,
+  In KNewOnly f -> strict_new f = true -> detect strict_old false l f = Some SNew.
+Proof. exact new_only_key_means_new_style. Qed.
+Print Assumptions C20_new_only_key_means_new_style.
+
+Theorem C20_lax_old_probe_refuted :
+  detect lax_old false true [KCommon; KNewOnly] <> Some SNew
+  /\ detect strict_old false true [KCommon; KNewOnly] = Some SNew.
+Proof. exact lax_old_probe_refuted. Qed.
+Print Assumptions C20_lax_old_probe_refuted.
